@@ -1284,7 +1284,10 @@ func c07RetryAmongWriters(e *Env) {
 	parked := held != nil
 	mu.Unlock()
 	if !parked {
-		e.Harness("the retried writer did not reach the point between its attempts")
+		// (a tree whose retry loop no longer passes the tagged yield point: this schedule cannot be
+		// produced there; the writer has run to completion on its own)
+		e.Probe("retry-yield-site-not-reached")
+		return
 	}
 	e.Act("retry-held", "A accepted %d of %d, then a temporary error", cut, len(wantA))
 	// meanwhile B writes
